@@ -14,6 +14,13 @@
 //!                  frame body are attributed to the frame decoder (rule `body-split`).
 //!  * `reconnect` – hosted only: the connection of a downlink is lost in the middle of a script;
 //!                  after the agent obtained a new connection the fold starts afresh.
+//!  * `read-only` – the local handle of a downlink is dropped at any point of a legal script (before
+//!                  `linked`, before `synced`, after it, between links) or the write side of the client
+//!                  value downlink fails; the notifications continue and every oracle of `legal`
+//!                  applies to what follows (the client tasks are then in their read-only loop).
+//!  * `writer-failure` – hosted only: the consumer of a downlink's output goes away while the link
+//!                  is open and a local write then fails; the agent replaces the connection without
+//!                  any notification having passed through the downlink; the fold restarts there.
 //!  * `illegal`   – arbitrary sequences: absence of panics and hangs only.
 
 mod client;
@@ -28,9 +35,12 @@ use std::sync::Mutex;
 use common::{json, CaseOut, Json, Rng, Session};
 
 use crate::drive::{CutMode, ImplObs};
-use crate::hosted::Reconnect;
+use crate::hosted::{Loss, Reconnect};
 use crate::reference::{check, show_trace, well_behaved, Cb, CheckInput, Finding, Mode, Stats};
-use crate::script::{gen_illegal, gen_legal, merge, show_script, Flags, GenOpts, Kind, LocalOp, Note, Step, Uniq};
+use crate::script::{
+    cut_inside_link, gen_illegal, gen_legal, gen_local_op, merge, phases, show_script, with_handle_drop, with_write_failure, Flags, GenOpts, Kind, LocalOp, Note, Step,
+    Uniq,
+};
 
 const P: &str = "C08";
 
@@ -192,6 +202,9 @@ fn apply_stats(out: &mut CaseOut, imp: Imp, kind: &str, st: &Stats) {
     out.add(&format!("{p}/events-suppressed-before-sync"), st.suppressed_events);
     out.add(&format!("{p}/on_synced-points"), st.synced_checked);
     out.add(&format!("{p}/unlinks"), st.relinks);
+    if st.reconnections > 0 {
+        out.add(&format!("{p}/fold-restarts-at-new-connection"), st.reconnections);
+    }
     out.add(&format!("{p}/frames-after-terminate"), st.frames_after_terminate);
     out.add(&format!("{p}/local-writes-while-linked"), st.locals_while_linked);
     for o in &st.observations {
@@ -560,7 +573,7 @@ fn reconnect_case(case: u64, rng: &mut Rng, out: &mut CaseOut) {
     let at = merged.iter().position(|(k, idx, _)| *k == lost && *idx == a.len()).unwrap_or(merged.len());
     let drive_rng = rng.fork();
     let ctx = json!({"flags": flags.json(), "lost": lost.name(), "script_before_loss": show_script(&a), "script_after_reconnect": show_script(&b), "other": show_script(&other)});
-    let (obs, extra) = hosted::run_hosted(flags, &merged, vs.len(), ms.len(), CutMode::HeaderOnly, &mut drive_rng.clone(), &[Reconnect { at, kind: lost }]);
+    let (obs, extra) = hosted::run_hosted(flags, &merged, vs.len(), ms.len(), CutMode::HeaderOnly, &mut drive_rng.clone(), &[Reconnect { at, kind: lost, loss: Loss::InputClosed }]);
     report_problems(out, Imp::Hosted, flags, &obs, true, &ctx);
     if out.inconclusive.is_some() {
         return;
@@ -647,6 +660,165 @@ fn reconnect_case(case: u64, rng: &mut Rng, out: &mut CaseOut) {
     out.set_sample(ctx);
 }
 
+fn has_note_from(steps: &[Step], from: usize) -> bool {
+    steps[from.min(steps.len())..].iter().any(|s| matches!(s, Step::N(_) | Step::SplitLocal(..)))
+}
+
+/// Both implementations: the local handle goes away (or the client's write side fails) somewhere in
+/// a legal script and the notifications continue. Losing the handle is not a notification, so the
+/// reference fold and every demanded callback are exactly those of the plain script.
+fn read_only_case(case: u64, rng: &mut Rng, out: &mut CaseOut) {
+    let flags = Flags::of_index(case % 4);
+    // Variants 0 and 1: the handles of both downlinks are dropped. Variant 2: the write side of the
+    // value downlink fails while its handle stays (the client value task then stops writing; the
+    // client map task never does on a failed write, so its handle is dropped as before).
+    let write_failure = (case / 4) % 3 == 2;
+    let value_locals = (case / 12) % 2 == 1;
+    let vopts = GenOpts { local_writes: value_locals, take_drop: false, max_links: 3, terminates: flags.terminate_on_unlinked };
+    // No local map writes and no take/drop here: the client map downlink folds its own writes into
+    // the replica and mishandles take/drop (known findings), and a case reports its first divergence
+    // only - what happens in the read-only loop would be masked.
+    let mopts = GenOpts { local_writes: false, ..vopts };
+    let mut uniq = Uniq::new(1000);
+    let vs = gen_legal(rng, Kind::Value, &mut uniq, &vopts);
+    let ms = gen_legal(rng, Kind::Map, &mut uniq, &mopts);
+    let (vs, vpos, vcause) = if write_failure {
+        let (s, p) = with_write_failure(rng, &mut uniq, vs, &flags);
+        (s, p, "write-failed")
+    } else {
+        let (s, p) = with_handle_drop(rng, vs, &flags);
+        (s, p, "handle-dropped")
+    };
+    let (ms, mpos) = with_handle_drop(rng, ms, &flags);
+    // Where in the life of the link the downlink lost its write side (as the script implies it).
+    let vphase = phases(&vs, &flags)[vpos];
+    let mphase = phases(&ms, &flags)[mpos];
+    out.count(&format!("read-only/value/{vcause}/{vphase}/{}", flags.sig()));
+    out.count(&format!("read-only/map/handle-dropped/{mphase}/{}", flags.sig()));
+    let continues = has_note_from(&vs, vpos) || has_note_from(&ms, mpos);
+    out.count(&format!("read-only/notifications-continue={}", continues as u8));
+    let merged = index_merged(merge(rng, &vs, &ms));
+    let cs = CaseScripts { flags, vs, ms, merged };
+    let drive_rng = rng.fork();
+    both_implementations(out, &cs, CutMode::HeaderOnly, &drive_rng);
+    out.nontrivial &= continues;
+    out.add("read-only/cases-with-a-reported-divergence", !out.violations.is_empty() as u64);
+}
+
+/// Hosted only: script A ends inside a link; the consumer of the downlink's output goes away and a
+/// local write fails; the agent asks for a new connection on which script B is delivered.
+fn writer_failure_case(case: u64, rng: &mut Rng, out: &mut CaseOut) {
+    // Mostly the restartable configuration; a terminating downlink cannot be restarted and is
+    // expected to be silent from then on.
+    let flags = Flags { events_when_not_synced: case & 1 == 1, terminate_on_unlinked: (case / 4) % 8 == 7 };
+    let lost = if (case / 2) % 2 == 0 { Kind::Value } else { Kind::Map };
+    let opts = GenOpts { local_writes: (case / 4) % 4 == 2, take_drop: false, max_links: 2, terminates: flags.terminate_on_unlinked };
+    let mut uniq = Uniq::new(1000);
+    let full = gen_legal(rng, lost, &mut uniq, &opts);
+    let Some(a) = cut_inside_link(rng, &full, &flags) else {
+        out.inconclusive("generated script has no open link");
+        return;
+    };
+    let b = gen_legal(rng, lost, &mut uniq, &opts);
+    let other_kind = if lost == Kind::Map { Kind::Value } else { Kind::Map };
+    let other = gen_legal(rng, other_kind, &mut uniq, &GenOpts { local_writes: false, ..opts });
+    let trigger = gen_local_op(rng, &mut uniq, lost);
+    let mut lost_script = a.clone();
+    lost_script.extend(b.iter().cloned());
+    let (vs, ms) = if lost == Kind::Value { (lost_script.clone(), other.clone()) } else { (other.clone(), lost_script.clone()) };
+    out.sig(&(flags, lost, &a, &trigger, &b, &other));
+    let merged = index_merged(merge(rng, &vs, &ms));
+    let at = merged.iter().position(|(k, idx, _)| *k == lost && *idx == a.len()).unwrap_or(merged.len());
+    let drive_rng = rng.fork();
+    let phase = *phases(&a, &flags).last().unwrap_or(&"before-link");
+    let ctx = json!({"flags": flags.json(), "lost": lost.name(), "script_before_failure": show_script(&a), "failing_local_write": trigger.show(),
+                     "script_on_new_connection": show_script(&b), "other": show_script(&other)});
+    let (obs, extra) = hosted::run_hosted(
+        flags,
+        &merged,
+        vs.len(),
+        ms.len(),
+        CutMode::HeaderOnly,
+        &mut drive_rng.clone(),
+        &[Reconnect { at, kind: lost, loss: Loss::OutputFault(trigger.clone()) }],
+    );
+    report_problems(out, Imp::Hosted, flags, &obs, true, &ctx);
+    if out.inconclusive.is_some() {
+        return;
+    }
+    let Some((_, before, after, reconnected)) = extra.closes.first().copied() else {
+        out.inconclusive("failure point not reached");
+        return;
+    };
+    out.count(&format!("writer-failure/{}/{phase}/reconnected={}/{}", lost.name(), reconnected as u8, flags.sig()));
+    let mut trace = trace_of(&obs, lost).to_vec();
+    // The statement demands no callback when the connection is replaced; a single on_unlinked /
+    // on_failed there would be a faithful report of what happened and is accepted (and removed
+    // before the comparison). Anything else is a callback no notification demands.
+    let (before, after) = (before.min(trace.len()), after.min(trace.len()));
+    let seg: Vec<Cb> = trace[before..after].to_vec();
+    match seg.as_slice() {
+        [] => out.count("writer-failure/callbacks-at-failure=none"),
+        [Cb::Unlinked] | [Cb::Failed] => {
+            out.count(&format!("writer-failure/callbacks-at-failure={}", seg[0].kind()));
+            trace.remove(before);
+        }
+        _ => {
+            out.violation(
+                P,
+                format!("callbacks-at-writer-failure/{}/hosted/{}", lost.name(), flags.sig()),
+                "unexpected callbacks when a write of the downlink failed and its connection was replaced",
+                json!({"context": ctx, "callbacks": show_trace(&seg)}),
+            );
+            return;
+        }
+    }
+    // The effective script: A, the local write, then - if the agent obtained a new connection - the
+    // restart of the fold and B. Without a new connection nothing more can reach the downlink.
+    let mut effective = a.clone();
+    let mut marks: Vec<Option<(usize, usize)>> = obs.marks.of(lost)[..a.len()].to_vec();
+    effective.push(Step::Local(trigger.clone()));
+    marks.push(None);
+    if reconnected {
+        effective.push(Step::Reconnected);
+        marks.push(None);
+        effective.extend(b.iter().cloned());
+        marks.extend(obs.marks.of(lost)[a.len()..].iter().cloned());
+    }
+    let (finding, st) = check(&CheckInput {
+        mode: if lost == Kind::Value { Mode::Value } else { Mode::Map },
+        imp: "hosted",
+        flags,
+        steps: &effective,
+        trace: &trace,
+        marks: &marks,
+    });
+    apply_stats(out, Imp::Hosted, lost.name(), &st);
+    if let Some(f) = finding {
+        // Divergences found in A (before the failure) are the ordinary ones; those found afterwards
+        // are named after the reconnection.
+        let in_a = f.step.map_or(false, |s| s < a.len());
+        let sig = if in_a { f.signature(lost.name(), "hosted", &flags) } else { format!("after-writer-failure/{}", f.signature(lost.name(), "hosted", &flags)) };
+        out.violation(P, sig, f.what, json!({"context": ctx, "effective_script": show_script(&effective), "trace": show_trace(&trace), "divergence": f.detail}));
+    }
+    // The downlink that kept its connection is checked as usual.
+    let (f2, st2) = check_kind(Imp::Hosted, other_kind, flags, &other, &obs);
+    apply_stats(out, Imp::Hosted, other_kind.name(), &st2);
+    if let Some(f) = f2 {
+        out.violation(
+            P,
+            f.signature(other_kind.name(), "hosted", &flags),
+            f.what,
+            json!({"context": ctx, "trace": show_trace(trace_of(&obs, other_kind)), "divergence": f.detail}),
+        );
+    }
+    out.add("hosted/connections", extra.connections as u64);
+    // Non-trivial: the connection was replaced and callbacks of the new link were checked.
+    out.nontrivial = reconnected && st.reconnections > 0 && trace.len() > before;
+    out.add("writer-failure/cases-with-a-reported-divergence", !out.violations.is_empty() as u64);
+    out.set_sample(ctx);
+}
+
 fn main() {
     let mut s = Session::new("dlimpl");
     if !s.prop().is_empty() && s.prop() != P {
@@ -702,6 +874,24 @@ fn main() {
         false,
         cases,
         reconnect_case,
+    );
+
+    let cases = s.args.budget(24_000, 600_000);
+    s.part(
+        "read-only",
+        "one case = a value and a map script as in `legal` (no take/drop, local writes on the value downlink only and only before the loss) in which the local handle of each downlink is dropped at a point chosen evenly over the phases of the link (before `linked`, linked but not synced, synced, between links, after a terminating unlinked) - or, every third case, the consumer of the client value downlink's output goes away and two local sets fail - and the notifications continue; all four settings, both implementations (hosted: the agent drops its handle; it is run without the output fault), all oracles of `legal` including equal callback logs; non-trivial when notifications followed the loss and both implementations exposed their state; distinct by hash of flags and scripts",
+        false,
+        cases,
+        read_only_case,
+    );
+
+    let cases = s.args.budget(12_000, 300_000);
+    s.part(
+        "writer-failure",
+        "hosted only: legal script A cut inside a link (after `linked`, mostly after `synced`), then the consumer of the downlink's output goes away and a local write is issued (the write fails while the input is open and silent), then legal script B on the connection the agent asks for next; value and map downlinks alternate, 7 of 8 cases restartable (terminate_on_unlinked off); oracle: no callback (or a single on_unlinked/on_failed) at the failure, the fold restarts with the new connection (events of the new link before its `synced` are suppressed unless enabled, first on_set sees no previous value, maps start empty), the other downlink is unaffected; non-trivial when the agent reconnected and callbacks of the new link were checked; distinct by hash of flags and scripts",
+        false,
+        cases,
+        writer_failure_case,
     );
 
     let cases = s.args.budget(24_000, 600_000);
